@@ -23,7 +23,7 @@ from ..vloop import VLoop
 ID = 'C19'
 MEMBERS = ('a', 'b', 'm', 's', 'f')
 FUTURE_STATES = ('pending', 'result', 'exception', 'cancelled')
-LOADER_MODES = ('default', 'global-custom', 'per-save-custom', 'per-save-custom+context')
+LOADER_MODES = ('default', 'global-custom', 'per-save-custom', 'per-save-custom+context', 'per-save-strict')
 
 
 class CountingLoader(loaders.ObjectLoader):
@@ -40,6 +40,15 @@ class CountingLoader(loaders.ObjectLoader):
 
     def identify_object(self, obj: Any) -> str:
         return 'custom!' + loaders.DefaultObjectLoader().identify_object(obj)
+
+
+class StrictLoader(CountingLoader):
+    """A custom loader that knows its own identifiers only (CountingLoader also resolves the default ones)."""
+
+    def load_object(self, identifier: str) -> Any:
+        if not identifier.startswith('custom!'):
+            raise ValueError(f'StrictLoader does not know {identifier!r}')
+        return super().load_object(identifier)
 
 
 @persistence.auto_persist('v', 'inner')
@@ -150,14 +159,14 @@ def check_case(levels: Tuple[Tuple[str, ...], ...], future_state: str, mode: str
 
     classes = make_chain(levels)
     cls = classes[-1]
-    custom = CountingLoader()
+    custom = StrictLoader() if mode == 'per-save-strict' else CountingLoader()
     CountingLoader.loads = []
     previous = loaders.get_object_loader()
     try:
         if mode == 'global-custom':
             loaders.set_object_loader(custom)
         obj = cls(future_state)
-        save_ctx = persistence.LoadSaveContext(loader=custom) if mode.startswith('per-save-custom') else None
+        save_ctx = persistence.LoadSaveContext(loader=custom) if mode.startswith('per-save-') else None
         try:
             saved = obj.save(save_ctx)
         except BaseException as exc:  # noqa: BLE001
